@@ -350,6 +350,11 @@ func runC08(w *W) {
 		}
 	}
 	w.eachNDInput(1, judge)
+	w.genDenseSizes(func(g string, in []byte) {
+		if bytes.HasPrefix(in, []byte(`{"a":1}`+"\n")) {
+			judge(g, in)
+		}
+	})
 }
 
 func replayC08(w *W, cs *ev.Case) {
